@@ -76,6 +76,7 @@ St  == INSTANCE Stimulus WITH last <- sret       \* C06 (its `last` tag is irrel
 Bl  == INSTANCE Blend WITH last <- sret          \* C08
 Df  == INSTANCE Diff            \* C09
 Hu  == INSTANCE Hue WITH last <- sret            \* C11
+Ce  == INSTANCE Equality WITH last <- sret, lastc <- sret   \* comparing colours: ==, !=, abs_diff, relative, ulps (hue clause of == is C11)
 Hx  == INSTANCE Hex             \* C12
 Pk  == INSTANCE Packed          \* C12
 Nm  == INSTANCE Named           \* C12
